@@ -14,6 +14,7 @@
 #include <fcntl.h>
 #include <functional>
 #include <iostream>
+#include <limits>
 #include <map>
 #include <set>
 #include <sstream>
@@ -69,7 +70,7 @@ struct Op {
       case SANITY: snprintf(b, sizeof b, "%ssanity_check<%s>()", V, R); break;
       case DISPLAY: snprintf(b, sizeof b, "%sdisplay_param<%s>()", V, R); break;
       case DISPLAYVEC: snprintf(b, sizeof b, "%sdisplay_vec<%s>()", V, R); break;
-      case SETVEC: if (rel) snprintf(b, sizeof b, "%sset_vec<%s>(%s,%s)", V, R, p.c_str(), rel == 1 ? "current+one" : rel == 2 ? "current-last" : rel == 4 ? "{+0,1.5,2.5}" : rel == 5 ? "{-0,1.5,2.5}" : "current"); else snprintf(b, sizeof b, "%sset_vec<%s>(%s,len=%d)", V, R, p.c_str(), n); break;
+      case SETVEC: if (rel) snprintf(b, sizeof b, "%sset_vec<%s>(%s,%s)", V, R, p.c_str(), rel == 1 ? "current+one" : rel == 2 ? "current-last" : rel == 6 ? "same-length-other-contents" : rel == 4 ? "{+0,1.5,2.5}" : rel == 5 ? "{-0,1.5,2.5}" : "current"); else snprintf(b, sizeof b, "%sset_vec<%s>(%s,len=%d)", V, R, p.c_str(), n); break;
       case GETVEC: snprintf(b, sizeof b, "%sget_vec<%s>(%s)", V, R, p.c_str()); break;
       case EVAL: snprintf(b, sizeof b, "%seval_%s/%s<%s>#%d", V, fn.c_str(), sig.c_str(), R, tuple); break;
       case LIST: snprintf(b, sizeof b, "%slist_mms<%s>()", V, R); break;
@@ -106,7 +107,7 @@ template <class S> static Outcome real_op_t(const Op& o) {
       case SANITY: R.ret = std::to_string(masa_sanity_check<S>()); break;
       case DISPLAY: R.ret = std::to_string(masa_display_param<S>()); break;
       case DISPLAYVEC: R.ret = std::to_string(masa_display_vec<S>()); break;
-      case SETVEC: { std::vector<S> v(o.n); for (int i = 0; i < o.n; i++) v[i] = (S)vec_value(o.n, i); if (o.rel) { v.clear(); for (LD x : o.vals) v.push_back((S)x); } masa_set_vec<S>(o.p, v); R.ret = ""; break; }
+      case SETVEC: { std::vector<S> v(o.n); for (int i = 0; i < o.n; i++) v[i] = (S)vec_value(o.n, i); if (o.rel) { v.clear(); for (LD x : o.vals) v.push_back((S)x); } std::vector<S> passed = v; masa_set_vec<S>(o.p, v); R.ret = (v == passed) ? "" : "CALLER-VECTOR-MODIFIED-BY-set_vec"; break; }
       case GETVEC: { std::vector<S> v; v.push_back((S)-777); int st = masa_get_vec<S>(o.p, v); R.ret = std::to_string(st) + ":"; if (st == 0) for (S x : v) R.ret += hexl((LD)x) + ","; else R.ret += (v.size() == 1 && v[0] == (S)-777) ? "untouched" : "touched"; break; }
       case EVAL: { const ApiEntry* e = api_find(o.fn.c_str(), o.sig.c_str()); ApiArgs A = args_tuple(o.tuple); R.ret = e ? hexl(sizeof(S) == sizeof(double) ? (LD)e->cd(A) : e->cl(A)) : "noapi"; break; }
       case LIST: R.ret = std::to_string(masa_list_mms<S>()); break;
@@ -321,6 +322,7 @@ static Op resolve(const Op& o, const Model& M) {
   size_t dflt = 0;
   if (G.has_sel && G.h.count(G.sel)) { const Sol& s = G.h.at(G.sel); if (s.v.count(o.p)) { r.vals = s.v.at(o.p); if (DEFAULTS[o.reg].count(s.name) && DEFAULTS[o.reg].at(s.name).v.count(o.p)) dflt = DEFAULTS[o.reg].at(s.name).v.at(o.p).size(); } }
   // growth is bounded so that the space stays finite: one entry is appended to / dropped from a vector of length 3 or of the default length
+  if (o.rel == 6) { const Reg& G6 = M.r[o.reg]; if (G6.has_sel && G6.h.count(G6.sel) && G6.h.at(G6.sel).v.count(o.p)) { r.vals = G6.h.at(G6.sel).v.at(o.p); for (auto& x : r.vals) x = (x == 1.0L + (LD)r.vals.size()) ? 2.0L + (LD)r.vals.size() : 1.0L + (LD)r.vals.size(); } return r; }  // same length, other contents (two alternating fillings)
   if (o.rel == 4) { r.vals = {0.0L, 1.5L, 2.5L}; return r; }
   if (o.rel == 5) { r.vals = {-0.0L, 1.5L, 2.5L}; return r; }
   if (o.rel == 1) { if (r.vals.size() == 3 || r.vals.size() == dflt) r.vals.push_back(9.75L); } else if (o.rel == 2 && !r.vals.empty() && (r.vals.size() == 3 || r.vals.size() == dflt)) r.vals.pop_back();
@@ -596,10 +598,16 @@ static Space make_space(const std::string& id) {
       S.ops.push_back(opSet(r, "u_0", 7.5L)); S.ops.push_back(mk(GETNAME, r));
       if (r == 0) { S.ops.push_back(opEval(r, "source_rho_u", "S", 0)); S.ops.push_back(opInit(r, "heateq_2d_steady_const", "no_such_solution")); S.ops.push_back(opInit(r, "euler_1d", "euler_1dd")); }
     }
+  } else if (id == "c17s") {
+    // C and C++ writes of the same vector interleaved, every sequence up to the depth, nothing merged
+    S.solutions = {"radiation_integrated_intensity"}; S.prefix = {opInit(0, "r", "radiation_integrated_intensity", true)};
+    S.ops = {opSetVec(0, "vec_mean", 3, true), opSetVecRel(0, "vec_mean", 4, true), opSetVec(0, "vec_mean", 3, false), opSetVecRel(0, "vec_mean", 5, false), mk(INITPARAM, 0, false), mk(INITPARAM, 0, true),
+             opGetVec(0, "vec_mean", true), opSet(0, "no_gauss", 7.5L, true), opSet(0, "no_gauss", 7.5L, false), opGet(0, "no_gauss", true)};
   } else if (id == "c16l") {
     // registered handles of 32..41 and 64 characters that share their first character with an unknown handle: the error path may look at them
     S.solutions = {"euler_1d"}; S.key_last = false;
     for (int len : {32, 33, 39, 40, 41, 64}) { std::string h(len, 'h'); h[len - 1] = 'z'; S.ops.push_back(opInit(0, h, "euler_1d")); }
+    S.ops.push_back(opInit(1, "only-in-long-double", "euler_1d")); S.ops.push_back(opSel(0, "only-in-long-double")); S.ops.push_back(opSel(1, "only-in-long-double"));  // registered in the other registry only: unknown here
     S.ops.push_back(opSel(0, "hX-unknown")); S.ops.push_back(opSel(0, std::string(36, 'h'))); S.ops.push_back(opInit(0, "hnew", "no_such_solution")); S.ops.push_back(mk(GETNAME, 0));
   } else if (id == "c16s") {
     // registry alphabet with misuse for the all-sequences exploration: in the exception build the history continues through every caught failure
@@ -621,7 +629,7 @@ static Space make_space(const std::string& id) {
     S.solutions = {"radiation_integrated_intensity", "cp_normal"}; S.key_last = false;
     for (int r = 0; r < (g_tier ? 2 : 1); r++) {
       S.ops.push_back(opInit(r, "a", "radiation_integrated_intensity")); S.ops.push_back(opInit(r, "b", "cp_normal")); S.ops.push_back(opSel(r, "a")); S.ops.push_back(opSel(r, "b"));
-      S.ops.push_back(opSetVec(r, "vec_mean", 600)); S.ops.push_back(opSetVec(r, "vec_data", 600)); S.ops.push_back(opGetVec(r, "vec_mean")); S.ops.push_back(opGetVec(r, "vec_data"));
+      S.ops.push_back(opSetVec(r, "vec_mean", 600)); S.ops.push_back(opSetVec(r, "vec_data", 600)); S.ops.push_back(opSetVecRel(r, "vec_mean", 6));  // (rel 6: replace by a vector of the same length: nothing of the old contents may travel back to the caller) S.ops.push_back(opGetVec(r, "vec_mean")); S.ops.push_back(opGetVec(r, "vec_data"));
       S.ops.push_back(opInit(r, "a", "no_such_solution")); S.ops.push_back(opInit(r, "b", "cp_normall")); S.ops.push_back(opInit(r, "c", "radiation")); S.ops.push_back(opSel(r, "nosuch"));
       if (r == 0) { S.ops.push_back(opEval(r, "source_u", "S", 0)); S.ops.push_back(opEval(r, "posterior_mean", "", 0)); }
     }
@@ -655,7 +663,7 @@ static Space make_space(const std::string& id) {
     names.push_back("no_such_parameter"); names.push_back("");
     // values: ordinary, the "uninitialised" marker itself, and the marker's neighbours (a value that sanity_check classifies as the marker but
     // that is not bit-equal to it: next double towards zero; the decimal literal in long double, which differs from the double-rounded marker)
-    std::vector<LD> vals = {1.5L, (LD)MARKER, (LD)std::nextafter(MARKER, 0.0), (LD)(-MARKER)}; if (g_tier) vals.push_back(-2.25L);  // (+12345.67: same magnitude as the marker, an ordinary value)
+    std::vector<LD> vals = {1.5L, (LD)MARKER, (LD)std::nextafter(MARKER, 0.0), (LD)(-MARKER), (LD)std::numeric_limits<double>::denorm_min() * 3};  // (last: a subnormal double) if (g_tier) vals.push_back(-2.25L);  // (+12345.67: same magnitude as the marker, an ordinary value)
     for (size_t ni = 0; ni < names.size(); ni++) { for (size_t vi = 0; vi < vals.size(); vi++) { if (vi >= 2 && ni != 0 && !g_tier) continue; S.ops.push_back(opSet(0, names[ni], vals[vi])); } S.ops.push_back(opGet(0, names[ni])); }
     S.ops.push_back(mk(INITPARAM, 0)); S.ops.push_back(mk(PURGE, 0)); S.ops.push_back(mk(SANITY, 0)); S.ops.push_back(mk(DISPLAY, 0));
     for (size_t vi = 0; vi < d.vn.size(); vi++) { const std::string& vn = d.vn[vi]; std::vector<int> lens = {3}; if (vi == 0 || g_tier) lens.push_back(0); if (g_tier) { lens.push_back(1); lens.push_back(30); } for (int n : lens) S.ops.push_back(opSetVec(0, vn, n));
@@ -677,7 +685,7 @@ static Space make_space(const std::string& id) {
     // bit-equal to the marker the library writes ((long double)(double)-12345.67)
     std::string sol = g_solution; S.solutions = {sol}; defaults_for(sol); const Sol& d = DEFAULTS[1][sol];
     S.prefix = {opInit(1, "s", sol)};
-    if (!d.pn.empty()) { const std::string& n = d.pn.front(); for (LD v : {1.5L, (LD)MARKER, -12345.67L}) S.ops.push_back(opSet(1, n, v)); S.ops.push_back(opGet(1, n)); if (d.pn.size() > 1) { S.ops.push_back(opSet(1, d.pn.back(), -12345.67L)); S.ops.push_back(opGet(1, d.pn.back())); } }
+    if (!d.pn.empty()) { const std::string& n = d.pn.front(); for (LD v : {1.5L, (LD)MARKER, -12345.67L, std::numeric_limits<LD>::denorm_min() * 5}) S.ops.push_back(opSet(1, n, v)); S.ops.push_back(opGet(1, n)); if (d.pn.size() > 1) { S.ops.push_back(opSet(1, d.pn.back(), -12345.67L)); S.ops.push_back(opGet(1, d.pn.back())); } }
     S.ops.push_back(mk(INITPARAM, 1)); S.ops.push_back(mk(PURGE, 1)); S.ops.push_back(mk(SANITY, 1)); S.ops.push_back(mk(DISPLAY, 1));
   } else if (id == "c11all" || id == "c11allp") {
     // leak sweep: set_param on EVERY registered name, one step from the default state and from the purged state
